@@ -62,6 +62,10 @@ Definition mut_swallow (f : disk -> disk) (g : disk -> disk) : M unit :=
 
 Definition atomic (f : disk -> disk) : M unit := mut f (fun _ d => d).
 
+(* not a system call: rewrites the model's representation of the disk without changing its content
+   (used so that "delete an entry that is not there" yields literally the term the pure model builds) *)
+Definition touch (f : disk -> disk) : M unit := fun _ c d => (Ret tt, c, f d).
+
 (* disk_io::write: File::create (truncate) then the buffered write at drop *)
 Definition write_pj (s : pstate) : M unit :=
   atomic (fun d => set_pj d JGarbage) ;;; mut_swallow (fun d => set_pj d (JOk s)) (fun d => set_pj d JGarbage).
@@ -71,11 +75,13 @@ Definition write_sj (s : sstate) : M unit :=
 (* delete_patch_artifacts: remove_dir_all(patches/n) = unlink the file, rmdir the directory *)
 Definition rm_art (n : N) : M unit :=
   d <- get ;;
+  (* the two steps are written as functions of the disk read at entry, so that the final disk is
+     literally [del_art d n]; nothing else runs in between *)
   match arts d n with
-  | None => ret tt
-  | Some ADir => atomic (fun d => del_art d n)
+  | None => touch (fun _ => del_art d n)       (* nothing to delete: same content *)
+  | Some ADir => atomic (fun _ => del_art d n)
   | Some (AFile _) =>
-      atomic (fun d => set_arts d (upd_art (arts d) n (Some ADir))) ;;; atomic (fun d => del_art d n)
+      atomic (fun _ => set_arts d (upd_art (arts d) n (Some ADir))) ;;; atomic (fun _ => del_art d n)
   end.
 
 (* partial removal of a set of entries *)
@@ -139,10 +145,10 @@ Definition boot_failureM (key : option string) (s : pstate) (n : N) : M (pstate 
 Definition add_patchM (s : pstate) (n : N) (b : bytes) (h : string) (sg : option string) : M pstate :=
   d <- get ;;
   (match arts d n with
-   | None => atomic (fun d => set_arts d (upd_art (arts d) n (Some ADir)))
+   | None => atomic (fun _ => set_arts d (upd_art (arts d) n (Some ADir)))
    | Some _ => ret tt
    end) ;;;
-  atomic (fun d => put_art d n b) ;;;
+  atomic (fun _ => put_art d n b) ;;;
   let new := {| m_num := n; m_size := blen b; m_hash := h; m_sig := sg |} in
   (match nb s, lb s with
    | Some x, Some l =>
